@@ -88,6 +88,19 @@ Proof.
   eexists. repeat split; vm_compute; reflexivity.
 Qed.
 
+(* Python, a variant renamed to a key that starts with a digit: the member of the Types class is not an identifier *)
+Lemma python_digit_name_refuted :
+  exists cfg pd text, dom_C10 CPY pd = true /\ known_C10 CPY [] pd = ["C10-python-digit-name"%string] /\
+    py_generate uc_exec cfg pd = Ok text /\ contains_sub (lit "    1_A = ""1a""") text = true.
+Proof.
+  exists w_py_cfg,
+    (w_pd [] [EAlgebraic (lit "t") (lit "c") {| eid := w_id "G"; egenerics := []; ecomments := [];
+                                                 evariants := [VTuple (RPrim PU8) {| vid := {| original := lit "V"; renamed := lit "1a"; via_serde_rename := true |};
+                                                                                     vcomments := [] |}];
+                                                 edecs := []; erecursive := false; eredacted := false |}] []).
+  eexists. repeat split; vm_compute; reflexivity.
+Qed.
+
 (* Python, an algebraic enum without variants (reachable from the IR only: the parser rejects tag/content on an enum
    whose variants are all unit or skipped): `Union[]` *)
 Lemma python_empty_union_refuted :
